@@ -176,3 +176,22 @@ Theorem C30_no_leak :
       wname w = type_name t /\ winputs w = spec_inputs V attrs lazy.
 Proof. exact no_leak. Qed.
 Print Assumptions C30_no_leak.
+
+(* object identity (Model: `ids`, allocation numbers of task objects): in EVERY history, for ANY digests
+   and constructors and without any hypothesis, the `inputs` object of a returned workflow is never one
+   of the user's task objects (new / copy.copy / attrs.evolve), and a setattr never writes to an object
+   held by the class-level cache.  So a later setattr on a task that was used for a construction cannot
+   change a cached workflow (what `lazy_spec = copy(task)` is for). *)
+Theorem C30_no_alias :
+  forall (V T G R HT HD HC : Type) (ht_eqb : HT -> HT -> bool) (hd_eqb : HD -> HD -> bool) (hc_eqb : HC -> HC -> bool)
+         (hash_type : T -> HT) (hash_dict : list (fname * V) -> HD) (checksum : T -> list (fname * V) -> HC)
+         (type_name : T -> string) (fields : T -> list fname) (default : T -> fname -> attr V)
+         (ctor : T -> list (fname * arg V) -> G) (subst : list (fname * V) -> G -> G) (eval : G -> R)
+         (ops : list (op V T)),
+    Forall (fun o : idobs =>
+              (forall n, id_ret o = Some n -> ~ In n (id_user o)) /\
+              (forall n, id_written o = Some n -> ~ In n (id_cached o)))
+           (id_history V T G R HT HD HC ht_eqb hd_eqb hc_eqb hash_type hash_dict checksum type_name fields
+                       default ctor subst eval ops).
+Proof. exact history_no_alias. Qed.
+Print Assumptions C30_no_alias.
